@@ -49,6 +49,8 @@ def uf_bv(name, args, unit, extra=()):
             # NaT / out-of-range ticks or an impossible date: datetime itself has no answer (callers guard NaT)
             return z3.BitVecVal(-777777777, 64)
     c = symx.ctx()
+    if name in _TOD and unit in _TOD_UNIT and len(args) == 1:
+        return _time_of_day(c, args[0], unit)[name]
     reg = c.notes.setdefault("uf_dt", {})
     key = (name, unit, len(args), tuple(extra))
     apps = reg.setdefault(key, [])
@@ -67,6 +69,47 @@ def uf_bv(name, args, unit, extra=()):
     if name in RANGES:
         c.notes.setdefault("exact_in_float", set()).add(r.get_id())     # |r| < 2**53: int -> float64 -> int is the identity
     return r
+
+_TOD = ("hour", "minute", "second", "microsecond")
+_TOD_UNIT = {"us": 10**6, "ms": 1000, "s": 1}     # ticks per second
+
+def _time_of_day(c, ticks, unit):
+    """hour / minute / second / microsecond of a datetime are not calendar lore but place values of the ticks: fresh integers
+    tied to them by  ticks == (((day * 24 + hour) * 60 + minute) * 60 + second) * tps + fraction  with every digit in its
+    range, which determines them uniquely (multiplications by constants only, no division for the solver)"""
+    reg = c.notes.setdefault("tod", {})
+    key = (ticks.get_id(), unit)
+    if key in reg: return reg[key]
+    tps = _TOD_UNIT[unit]
+    day, h, m, sec, frac = [z3.BitVec(c.name("tod_" + n), 64) for n in ("day", "h", "m", "s", "f")]
+    lo, hi = -719162, 2932896
+    inrange = z3.And(ticks != INT64_MIN, ticks >= lo * 86400 * tps, ticks <= (hi * 86400 + 86399) * tps + tps - 1)
+    c.assume(z3.Implies(inrange, z3.And(day >= lo, day <= hi, h >= 0, h <= 23, m >= 0, m <= 59, sec >= 0, sec <= 59, frac >= 0, frac <= tps - 1,
+                                        ticks == (((day * 24 + h) * 60 + m) * 60 + sec) * tps + frac)),
+             note="time-of-day components are the place values of the ticks (years 1..9999)")
+    us = frac * (10**6 // tps)
+    out = {"hour": h, "minute": m, "second": sec, "microsecond": us}
+    ex = c.notes.setdefault("exact_in_float", set())
+    for v in (h, m, sec, us): ex.add(v.get_id())
+    reg[key] = out
+    return out
+
+def sym_datetime_us(c, tag, whole_seconds=True):
+    """a datetime64[us] cell built from its digits (day, hour, minute, second[, microsecond]) or NaT; the digits are
+    registered as the time-of-day components of that cell, so the solver never has to divide"""
+    v = z3.BitVec(c.name(tag), 64)
+    day, h, m, sec = [z3.BitVec(c.name(f"{tag}_{n}"), 64) for n in ("day", "h", "m", "s")]
+    frac = z3.BitVecVal(0, 64) if whole_seconds else z3.BitVec(c.name(f"{tag}_f"), 64)
+    lo, hi = -719162, 2932896
+    digits = z3.And(day >= lo, day <= hi, h >= 0, h <= 23, m >= 0, m <= 59, sec >= 0, sec <= 59, frac >= 0, frac <= 999999)
+    c.assume(z3.Or(v == INT64_MIN, z3.And(digits, v == (((day * 24 + h) * 60 + m) * 60 + sec) * 10**6 + frac)),
+             note="datetime values within years 1..9999 (or NaT), given by their day / hour / minute / second digits")
+    out = {"hour": h, "minute": m, "second": sec, "microsecond": frac}
+    ex = c.notes.setdefault("exact_in_float", set())
+    for x in (h, m, sec, frac): ex.add(x.get_id())
+    c.notes.setdefault("tod", {})[(v.get_id(), "us")] = out
+    c.notes.setdefault("floor_div", {})[(v.get_id(), 86400 * 10**6)] = day        # floor(v / one day) for a non-NaT v
+    return v, day
 
 class StrfToken(str):
     """text produced by strftime: an opaque string remembering (ticks term, unit, format)"""
